@@ -71,7 +71,8 @@ class Check:
                 violations.append(o)
         for o in known_hits:
             print(f"KNOWN-FINDING: property={self.pid} {kf[(self.pid, o['key'])]['text']} [{o['key']}]")
-        rep_dir = os.path.join(VERIF, 'reports', self.pid)
+        out_root = os.environ.get('VERIF_OUT_DIR', VERIF)      # (self-test matrix runs write elsewhere)
+        rep_dir = os.path.join(out_root, 'reports', self.pid)
         seen = set()
         for o in violations:
             if o['key'] in seen:
@@ -85,7 +86,7 @@ class Check:
                                detail=_js(o['detail']), tier=self.tier), fh, indent=1)
             kind = 'refuted' if o['verdict'] == 'REFUTED' else 'undecided (a proof that no longer goes through is not a pass)'
             print(f"  {kind}: {o['key']}: {o['text']}")
-            print(f"VIOLATION property={self.pid} replay={os.path.relpath(path, VERIF)}")
+            print(f"VIOLATION property={self.pid} replay={os.path.relpath(path, out_root)}")
         n_ob = len(self.obs)
         n_ok = sum(1 for o in self.obs if o['verdict'] == 'PROVED')
         cov = dict(
@@ -106,8 +107,8 @@ class Check:
         )
         ev = dict(property_id=self.pid, tier=self.tier, seed=self.seed, level=self.level, coverage=cov,
                   assumptions=self.assumptions, wall_s=round(wall, 3), violations=len(seen))
-        os.makedirs(os.path.join(VERIF, 'evidence'), exist_ok=True)
-        with open(os.path.join(VERIF, 'evidence', f'{self.pid}.json'), 'w') as fh:
+        os.makedirs(os.path.join(out_root, 'evidence'), exist_ok=True)
+        with open(os.path.join(out_root, 'evidence', f'{self.pid}.json'), 'w') as fh:
             json.dump(ev, fh, indent=1)
         print(f"{self.pid} [{self.tier}] obligations={n_ob} proved={n_ok} known={len(known_hits)} violations={len(seen)} wall={wall:.1f}s")
         return 1 if seen else 0
